@@ -1,6 +1,7 @@
 import HC.Proto.H11
 import HC.Props.C06
 import HC.Extracted.AppExit
+import HC.Proto.H2Credit
 /-!
 # C05 — application failures are contained and never yield a falsely complete response
 
@@ -205,6 +206,33 @@ def h2ResetOnClose (bufferExists bufferComplete isHttpStream : Bool) : Bool :=
 
 theorem h2_abandoned_reset (c : Bool) : h2ResetOnClose true c true = !c := by cases c <;> rfl
 theorem h2_completed_not_reset (h : Bool) : h2ResetOnClose false false h = false := by cases h <;> rfl
+
+/-! ### HTTP/2: a failed stream does not take the connection's receive window with it -/
+open HC.Proto.H2Credit in
+/-- **the connection's other streams keep their window**: request-body DATA that is still arriving for a stream whose
+    application has already ended (answered 500 / completed, the stream forgotten: `live = false`) is acknowledged in
+    full, exactly like DATA of live streams — the acknowledgement counts of both paths of `_handle_events` are read off
+    the source (`ReqGlue.dataAcksDelivered`, `dataAcksMissing`).  So after any upload to failed streams, of any length
+    and interleaved with anything, the client has the whole connection window `w0` again for its other streams. -/
+theorem failed_stream_upload_credited (es : List DataEv) (w0 : Nat) : (run {} es).available w0 = w0 := by
+  have hack : ∀ e : DataEv, acked e = e.len := by
+    intro e
+    cases e with
+    | mk len live => cases live <;> simp [acked, HC.Extracted.ReqGlue.dataAcksDelivered, HC.Extracted.ReqGlue.dataAcksMissing]
+  have key : ∀ (l : List DataEv) (w : Win), w.returned = w.consumed → (run w l).returned = (run w l).consumed := by
+    intro l
+    induction l with
+    | nil => intro w hw; exact hw
+    | cons e t ih =>
+      intro w hw
+      apply ih
+      simp [HC.Proto.H2Credit.step, hack, hw]
+  have := key es {} rfl
+  simp [Win.available, this]
+
+/-- in particular a whole connection window uploaded to a stream that failed before reading leaves it untouched -/
+example : (HC.Proto.H2Credit.run {} [⟨1000, true⟩, ⟨16384, false⟩, ⟨16384, false⟩, ⟨16384, false⟩, ⟨15383, false⟩]).available 65535 = 65535 := by
+  decide
 
 example : (Http.appSend { method := "GET", version := "1.1", st := .response, response := some (200, false) } none).2.1 = [.streamClosed] := by decide
 
